@@ -197,6 +197,7 @@ fn run(args: &[String]) -> Result<(), String> {
     let mut rep = report::Report::new(&prop, &prop, &n.to_string(), &tier);
     let t0 = std::time::Instant::now();
     match prop.as_str() {
+        "C17" | "C20" if n == 72 => checks::large_probe::<72>(&prop, &o, &mut rep),
         "C01" | "C02" | "C03" | "C11" | "C17" | "C20" => {
             with_n!(n, [checks::bfs_check], &prop, &o, &mut rep)
         }
@@ -290,8 +291,9 @@ fn replay(args: &[String]) -> Result<i32, String> {
     let r = match prop.as_str() {
         _ if case.act == "zst" => with_n!(n, [zst::replay_zst], &case),
         _ if case.act == "huge-full" => c19::replay_c19(&case),
-        "C01" if case.extra == "io" => with_n!(n, [io::replay_io], &case),
+        "C01" | "C02" | "C11" | "C04" if case.extra == "io" => with_n!(n, [io::replay_u8_twin], &case),
         "C17" if case.extra == "io-alloc" => with_n!(n, [io::replay_io], &case),
+        "C17" | "C20" if n == 72 => checks::replay_bfs::<72>(&case),
         "C01" | "C02" | "C03" | "C11" | "C17" | "C20" => with_n!(n, [checks::replay_bfs], &case),
         "C05" | "C06" | "C10" => with_n!(n, [faults::replay_fault], &case),
         "C13" => c13::replay_c13(&case),
